@@ -15,6 +15,12 @@ type genCtx struct {
 func (g *genCtx) add(c *Case) {
 	c.ID = caseID(g.prop, len(g.cases))
 	g.cases = append(g.cases, c)
+	// the builder model is compared with the real builder on a quarter of the path expressions
+	if c.Kind == "sel" && (g.prop == "C01" || g.prop == "C02" || g.prop == "C03" || g.prop == "C11") && len(g.cases)%4 == 0 {
+		pc := &Case{Kind: "plan", NS: c.NS, Expr: c.Expr}
+		pc.ID = caseID(g.prop, len(g.cases))
+		g.cases = append(g.cases, pc)
+	}
 }
 
 func (g *genCtx) thorough() bool { return g.tier == "thorough" }
